@@ -153,9 +153,28 @@ class Evaluator:
             ty = "usize"
         return wrap(r, ty) if ty else r
 
+    def reset(self):
+        """call when the leaf values change: forgets the per-input cache of condition values"""
+        self._cm = {}
+
     def cond_holds(self, c):
         """c = ('cond', text, kind, vals, origin) -> True/False"""
-        v = self.ev(c[4])
+        cm = getattr(self, "_cm", None)
+        if cm is None:
+            v = self.ev(c[4])
+        else:
+            k = id(c[4])
+            if k in cm:
+                v = cm[k]
+                if isinstance(v, Exception):
+                    raise v
+            else:
+                try:
+                    v = self.ev(c[4])
+                except (Unknown, Panic) as e:
+                    cm[k] = e
+                    raise
+                cm[k] = v
         if isinstance(v, tuple):
             raise Unknown("condition on a non-integer")
         if c[2] == "eq":
